@@ -712,6 +712,10 @@ func (l *Lexer) errorf(msg string, param ...interface{}) *Error {
 }
 
 func (l *Lexer) errorfAtPosition(pos, end token.Pos, msg string, param ...interface{}) *Error {
+	// An offending character may be the end of input itself: keep the range inside the buffer.
+	if int(end) > len(l.Buffer) {
+		end = token.Pos(len(l.Buffer))
+	}
 	return &Error{
 		Message:  fmt.Sprintf(msg, param...),
 		Position: l.Position(pos, end),
